@@ -20,6 +20,8 @@ func init() {
 }
 
 func runC08(c *eng.Ctx) {
+	c.Rule("R05.8", "K2")
+	ruleRebuildIndexAcceptsGaps(c)
 	p := c.P
 	// ---- R08.1 retention predicate
 	c.Rule("R08.1", "K1")
@@ -158,7 +160,10 @@ func runC08(c *eng.Ctx) {
 		})
 		c.Check(okRange, "compaction skips the newest segment", p.Pos(fn.Pos()), "cleanSegment is applied to segments[:len(segments)-1]", "compact does not exclude the last (active) segment from rewriting")
 		for _, cs := range eng.CallsIn(fn, cl+"compactCleaner.cleanSegment") {
-			seg := cs.Common().Args[1]
+			seg := eng.ArgOf(cs.Common(), "seg")
+			if seg == nil {
+				seg = cs.Common().Args[len(cs.Common().Args)-3]
+			}
 			ia := indexOfLoad(seg)
 			ok := false
 			if ia != nil {
